@@ -49,6 +49,7 @@ class Opts:
         self.p_partial = 0.25       # chance of NaN-like P fields where the trait set allows
         self.type_name = "Ty"
         self.names = None           # optional name provider (C19)
+        self.p_repr = 0.15          # chance of a #[repr(..)] (and explicit discriminants) on an enum
         self.full_exprs = False     # use expressions that need educe's `full` feature (syn/full)
         self.p_uniform = 0.25       # chance that all fields of a variant share one kind
         self.rich = False           # allow the rich generics flavour (two lifetimes, two type
@@ -162,6 +163,8 @@ def random_type(rng, traits, opts=None):
             return Variant(name, "unit", [])
         lo = min_fields
         n = rng.randint(lo, max(lo, o.max_fields))
+        if rng.random() < 0.08:
+            n = rng.randint(o.max_fields + 1, o.max_fields + 3)   # the occasional wide variant
         if n == 0 and rng.random() < 0.7:
             n = 1
         fields = []
@@ -186,6 +189,20 @@ def random_type(rng, traits, opts=None):
         else:
             rng.shuffle(names)
         td.variants = [mk_variant(names[i]) for i in range(nv)]
+        # the occasional #[repr(..)] and explicit discriminants (legal only for field-less enums or with a primitive repr)
+        if nv and rng.random() < o.p_repr:
+            rep = rng.choice(["u8", "i16", "u32", "i64", "isize", "C"])
+            td.reprs = [rep]
+            unit_only = all(v.style == "unit" for v in td.variants)
+            if (rep != "C" or unit_only) and rng.random() < 0.7:
+                signed = rep in ("i16", "i64", "isize", "C")
+                pool_d = list(range(-20, 100)) if signed else list(range(0, 120))
+                ds = rng.sample(pool_d, nv)
+                if rng.random() < 0.5:
+                    ds.sort()
+                for v, d in zip(td.variants, ds):
+                    v.disc = str(d)
+                td.notes["dvals"] = ds
 
     td.notes["kinds"] = kinds
     td.notes["garg"] = garg
